@@ -744,6 +744,7 @@ func exec(t *testing.T, ci sim.CaseI, choices []uint32, keepLog bool) *sim.Outco
 	}
 	s := sim.NewSched(cfg, keepLog)
 	h := &harness{c: c, s: s, u: u, dir: dir, procs: map[int]*procState{}, faults: map[string]int{}, cnt: map[string]int{}, avail: map[int]bool{}}
+	s.Normalize = func(d string) string { return strings.ReplaceAll(d, dir, "$CACHE") }
 	s.OnAt = func(t *sim.Task, site string, detail []string) bool {
 		p := h.procs[t.Proc]
 		if p == nil || p.dead {
